@@ -353,6 +353,16 @@ def cases_for(op, seed):
         trees = [N, N, H2, H3, H2, H13, H13, ("Q", H2, N), ("E", H3, H2), ("Q", N, ("E", H2, N)), ("E", ("Q", H13, H3), N), ("Q", H13, H2)]
         vals = [Fraction(0), Fraction(1), Fraction(2), Fraction(-3), Fraction(1, 2), Fraction(-5, 3), Fraction(6), Fraction(65), Fraction(0x1F496),
                 Fraction(0xD800), Fraction(0x110000), None]
+        # output encoding at the boundaries of the scalar-value range and of the UTF-8 length classes (property C14):
+        # push the code point, send it to stdout / stderr
+        for code in (0, 0x7F, 0x80, 0x7FF, 0x800, 0xD7FF, 0xD800, 0xDFFF, 0xE000, 0xFFFD, 0xFFFF, 0x10000, 0x10FFFF, 0x110000):
+            for tgt in (1, 2):
+                cmds = [(0, 1, code, N), (1, 1, tgt, N)]
+                exp = machine_run(cmds, {}, 4, "")
+                prog = ";".join("%d,%d,%d,%s" % (ty, h, d, " ".join(tree_tokens(t))) for ty, h, d, t in cmds)
+                yield ("exec.steps\t%s\t%s\t%d\t%s" % (prog, "", 4, ""), exp,
+                       {"op": "execute_one x<=4", "commands(type,syllables,dots,area)": prog, "stdin": "",
+                        "note": "prints U+%04X on stack %d" % (code, tgt)})
         for it in range(5500):
             use_stdin = 1100 <= it < 1500
             loopy = it >= 1500
@@ -547,7 +557,7 @@ OPS = {
     "opt_execute": ["opt.cmp"], "calc_on_state_opt": ["opt.cmp"], "optimize": ["opt.cmp"],
     "execute_one": ["exec.steps"], "calc_on_state": ["exec.steps", "area.calc"], "push_stack_wrap": ["exec.steps"],
     "pop_stack_wrap": ["exec.steps", "stdin.cat", "exit.pop"], "ReadLine_for_std::io::Stdin::read_line_": ["stdin.cat"], "io_read_line_from": ["stdin.cat"], "State::push_stack": ["exec.steps"], "State::pop_stack": ["exec.steps"],
-    "trait_State::push_stack": ["exec.steps"], "trait_State::pop_stack": ["exec.steps"], "ext_num_to_unicode": [],
+    "trait_State::push_stack": ["exec.steps"], "trait_State::pop_stack": ["exec.steps"], "ext_num_to_unicode": ["exec.steps"], "num_to_unicode": ["exec.steps"],
     "BigNum::to_string_base": ["big.to_base", "big.roundtrip"], "BigNum::from_string_base": ["big.from_base", "big.roundtrip"],
     "BigNum::from_string": ["big.from_string", "big.from_base"], "Num::from_string": ["num.roundtrip"],
 }
